@@ -337,7 +337,13 @@ func runC19(r *ev.Run) {
 			nv, nt = rng.IntN(120), rng.IntN(120)
 		}
 		ties := rng.IntN(3) == 0
+		// "close": finite float64 scores that are distinct but would collide if narrowed to float32 — neighbours a few
+		// 1e-10 apart, or magnitudes outside the float32 range (a caller's scores are float64; nothing says they came from float32)
+		closeMode, closeBase := rng.IntN(6) == 0, []float64{0.75, -3, 1e-60, 1e150, -1e-50, 1}[rng.IntN(6)]
 		gen := func() float64 {
+			if closeMode && !ties {
+				return closeBase * (1 + float64(rng.IntN(40))*1e-10)
+			}
 			if ties {
 				return float64(rng.IntN(4))
 			}
@@ -375,6 +381,21 @@ func runC19(r *ev.Run) {
 				txt[uint32(100000+rng.IntN(3*nt+1))] = gen()
 			}
 		case 4:
+		}
+		// a side that holds nothing may just as well be a nil map
+		switch rng.IntN(12) {
+		case 0:
+			vec = nil
+		case 1:
+			txt = nil
+		case 2:
+			vec, txt = nil, nil
+		}
+		if vec == nil || txt == nil {
+			r.Count("fusion-nil-map-inputs", 1)
+		}
+		if closeMode && !ties {
+			r.Count("fusion-inputs-distinct-only-beyond-float32", 1)
 		}
 		cp := func(m map[uint32]float64) map[uint32]float64 {
 			o := make(map[uint32]float64, len(m))
